@@ -20,6 +20,10 @@ def models():
         'delayed': spec('delayed', [A, B, C], {A: 4, B: 1, C: 0}, drx),
         'rule': spec('rule', [B, A, X], {A: 4, B: 1, X: 0}, rx, rules=rule),
         'rule+delayed': spec('rule+delayed', [C, A, B, X], {A: 4, B: 1, C: 0, X: 0}, drx, rules=rule),
+        'rule-at-start': spec('rule-at-start', [A, X, B], {A: 4, B: 1, X: 0}, rx,
+                              rules=[dict(type='assignment', target=X, rhs=('+', ('*', ('num', 3), ID(A)), ('num', 5)), freq='start')]),
+        'rule-at-0': spec('rule-at-0', [A, X, B], {A: 4, B: 1, X: 0}, rx,
+                          rules=[dict(type='assignment', target=X, rhs=('+', ('*', ('num', 3), ID(A)), ('num', 5)), freq='0')]),
     }
 
 
@@ -153,8 +157,8 @@ def run(ctx):
     lat = lattice(ctx.tier)
     ctx.bounds = dict(option_combinations=len(lat))
     ctx.rule = ('E3/product lattice, exhaustive: {stochastic} x {delay None/False/True} x {safe} x {volume False/True/number/Volume object/'
-                'initialised growing volume (thorough: + dividing)} x {data frame, result object} x {Model, pre-built interface} x 4 models '
-                '(plain, delayed reaction, assignment rule, both) x grid lengths; every call is made on the real py_simulate_model under a '
+                'initialised growing volume (thorough: + dividing)} x {data frame, result object} x {Model, pre-built interface} x 6 models '
+                '(plain, delayed reaction, repeated assignment rule, both, a rule due at the start spelled "start" and "0") x grid lengths; every call is made on the real py_simulate_model under a '
                 'fixed seed, and for one grid length the same call is repeated on the same Model / interface. Oracle: a returned result has the requested time axis (prefix if divided), one column per species in model '
                 'order (+volume when a volume is used), first row = initial condition with rules applied; a refusal must be a ValueError/'
                 'TypeError naming an option (or NotImplementedError raised by the entry point itself). states = transitions = calls; '
